@@ -25,9 +25,9 @@ Proof. exact media_requires_pull. Qed.
 Print Assumptions C11_media_requires_pull.
 
 (* a WSP data channel gets media only as the verified user of its control channel, holding the pull right *)
-Theorem C11_data_channel_requires_owner_and_pull : forall w s path t chan,
+Theorem C11_data_channel_requires_owner_and_pull : forall w s path t chan h,
   reachable w s ->
-  let o := snd (step w s (EWsOpen 2 path t chan)) in
+  let o := snd (step w s (EWsOpen 2 path t chan h)) in
   (o_media o = true \/ o_aux o = 200) ->
   exists u r, token_identity s t = Some u /\ u = c_user (get_conn s chan) /\
               rights_now (users s) u = Some r /\ permits r PULL (c_path (get_conn s chan)) = true.
@@ -52,10 +52,10 @@ Proof. exact registry_changes_only_by_sessions. Qed.
 Print Assumptions C11_registry_changes_only_by_sessions.
 
 (* management calls succeed only for administrators; stream queries for any authenticated caller *)
-Theorem C11_api_requires_admin : forall w s ep t u b n,
+Theorem C11_api_requires_admin : forall w s ep t u b n h,
   reachable w s ->
   ep_open ep = false ->
-  o_code (snd (step w s (EApi ep t u b n))) = 2 ->
+  o_code (snd (step w s (EApi ep t u b n h))) = 2 ->
   exists v, token_identity s t = Some v /\
             (ep_read ep = false -> exists push pull, rights_now (users s) v = Some (true, push, pull)).
 Proof. exact api_requires_admin. Qed.
@@ -132,6 +132,30 @@ Theorem C11_token_not_computable : forall rnd1 rnd2 w s evs,
   others_view (run_out rnd1 w s evs) = others_view (run_out rnd2 w s evs).
 Proof. exact token_not_computable. Qed.
 Print Assumptions C11_token_not_computable.
+
+(* the identity every decision uses is the token's user: a request carrying arbitrary client-chosen headers
+   (copies of the internal user_name_in_token header in any spelling, duplicated) is decided exactly as the same
+   request without them, state and answer; over whole histories too *)
+Theorem C11_identity_is_token_user : forall w s ev, step w s ev = step w s (strip_hdrs ev).
+Proof. exact identity_is_token_user. Qed.
+Print Assumptions C11_identity_is_token_user.
+
+Theorem C11_run_ignores_client_headers : forall w s evs, run w s evs = run w s (map strip_hdrs evs).
+Proof. exact run_ignores_client_headers. Qed.
+Print Assumptions C11_run_ignores_client_headers.
+
+(* Header.Add instead of Header.Set: Get returns the client's copy; a plain user naming the administrator is served
+   a path outside his rights and passes the administrator check (the last two clauses: the code as it is refuses) *)
+Theorem C11_identity_header_add_refuted :
+  ident_hdr true forged n_bob = n_root /\
+  stream_gate_h true true s1 (TA 0) p_x None [] = (403, n_bob) /\
+  stream_gate_h true true s1 (TA 0) p_x None forged = (200, n_root) /\
+  api_gate_h true s1 EP_USERS (TA 0) [] = 403 /\
+  api_gate_h true s1 EP_USERS (TA 0) forged = 2 /\
+  stream_gate true s1 (TA 0) p_x None forged = (403, n_bob) /\
+  api_gate s1 EP_USERS (TA 0) forged = 403.
+Proof. exact identity_header_add_refuted. Qed.
+Print Assumptions C11_identity_header_add_refuted.
 
 (* the oracle applied to the implementation accepts the model on every history *)
 Theorem C11_model_passes : forall w users0 ext evs,
